@@ -39,6 +39,33 @@ macro_rules! run_pool {
         let pool = Arc::new($new_pool(tx));
         let disp: Vec<Vec<Vec<u8>>> = arr(&v["dispatchers"]).iter().map(|d| arr(d).iter().map(blob).collect()).collect();
         let gap_us = v["gap_us"].as_u64().unwrap_or(0);
+        if let Some(n) = v["rxdrop"].as_u64() {
+            // the consumer of the results goes away after the first n packets (its receiver is dropped): workers that find the result
+            // channel closed leave, packets hashed to them are refused from then on -- reported dropped, and counted
+            let frames = &disp[0];
+            let mut rx = Some(rx);
+            let mut outcomes: Vec<&'static str> = vec![];
+            for (fi, f) in frames.iter().enumerate() {
+                if fi as u64 == n {
+                    std::thread::sleep(Duration::from_millis(30));
+                    rx = None;
+                }
+                let q = matches!(pool.dispatch(f.clone()), DispatchResult::Queued);
+                outcomes.push(if q { "queued" } else { "dropped" });
+                if gap_us > 0 {
+                    std::thread::sleep(Duration::from_micros(gap_us));
+                }
+            }
+            drop(rx);
+            std::thread::sleep(Duration::from_millis(30));
+            let stats = pool.stats();
+            pool.shutdown();
+            hooks::set_perturbation(0);
+            let _ = hooks::take_events();
+            return json!({"outcomes": [outcomes], "rxdrop": n,
+                          "stats": {"dispatched": stats.total_dispatched, "dropped": stats.total_dropped,
+                                    "workers": stats.workers.iter().map(|w| json!({"id": w.id, "q": w.queue_size, "dropped": w.dropped})).collect::<Vec<_>>()}});
+        }
         // stress runs: every dispatcher hands its frames over `rounds` times, without recording the calls (the recorder's lock would keep
         // the dispatchers apart)
         let rounds = v["rounds"].as_u64().unwrap_or(1) as usize;
